@@ -50,7 +50,8 @@ SHARDS = {'quick': 1, 'thorough': 16}
 SHARD_TIMEOUT = {'quick': 300, 'thorough': 1500}
 
 EXPECTED_ERRORS = ('OptimisticCheckError', 'UnrepeatableReadError', 'OperationalError', 'CommitException',
-                   'TransactionIntegrityError', 'UnexpectedError', 'RollbackException')
+                   'TransactionIntegrityError', 'UnexpectedError', 'RollbackException', 'ObjectNotFound', 'IntegrityError',
+                   'CacheIndexError', 'ConstraintError', 'OperationWithDeletedObjectError')
 PLAIN = ('x', 'y', 'z')
 
 
@@ -86,6 +87,32 @@ def handwritten():
     add(S('A', [('lock', 1, 'get_for_update'), ('inc', 1, 'x')]), S('B', [('inc', 1, 'x')]))
     add(S('A', [('read', 1, 'x'), ('lock', 1, 'get_for_update'), ('write', 1, 'y', 1001)]), S('B', [('write', 1, 'x', 2001)]))
     add(S('A', [('lock', 1, 'query_for_update'), ('copy', 1, 'y', 1, 'x')]), S('B', [('copy', 1, 'x', 1, 'y')]))
+    # mid-session commit(): the session goes on with the same cache; locks end with the transaction
+    add(S('A', [('read', 1, 'x'), ('write', 1, 'y', 1001), ('commit',), ('write', 1, 'z', 1002)]), S('B', [('write', 1, 'x', 2001)]))
+    add(S('A', [('inc', 1, 'x'), ('commit',), ('inc', 1, 'x')]), S('B', [('inc', 1, 'x')]))
+    add(S('A', [('lock', 1, 'get_for_update'), ('read', 1, 'x'), ('write', 1, 'z', 1001), ('commit',), ('write', 1, 'y', 1002)]),
+        S('B', [('write', 1, 'x', 2001)]))
+    add(S('A', [('lock', 1, 'query_for_update'), ('read', 1, 'x'), ('commit',), ('write', 1, 'y', 1001)]), S('B', [('inc', 1, 'x')]))
+    add(S('A', [('lock', 1, 'nowait'), ('read', 1, 'y'), ('inc', 1, 'x'), ('commit',), ('read', 1, 'z'), ('write', 1, 'x', 1001)]),
+        S('B', [('write', 1, 'y', 2001), ('write', 1, 'z', 2002)]))
+    add(S('A', [('newrow', 3), ('commit',), ('read', 3, 'x'), ('write', 3, 'y', 1001)]), S('B', [('write', 3, 'x', 2001)]))
+    add(S('A', [('newrow', 3), ('read', 3, 'x'), ('commit',), ('copy', 3, 'y', 3, 'x')]), S('B', [('inc', 3, 'x')]))
+    # a single object pushed with obj.flush() as the first write of the session, then a failing optimistic update
+    add(S('A', [('read', 2, 'x'), ('delkid', 4), ('objflush', 'K', 4), ('write', 2, 'y', 1001)]), S('B', [('write', 2, 'x', 2001)]))
+    add(S('A', [('read', 1, 'x'), ('write', 2, 'y', 1001), ('objflush', 'R', 2), ('write', 1, 'z', 1002)]), S('B', [('inc', 1, 'x')]))
+    add(S('A', [('read', 1, 'x'), ('delkid', 3), ('objflush', 'K', 3), ('setw', 1, 1001), ('objflush', 'K', 1), ('write', 1, 'y', 1002)]),
+        S('B', [('write', 1, 'x', 2001)]))
+    add(S('A', [('read', 1, 'y'), ('setw', 4, 1001), ('objflush', 'K', 4), ('delkid', 3), ('write', 1, 'z', 1002)]), S('B', [('inc', 1, 'y')]))
+    # member.parent read through the collection (different read kinds, collection loaded by something else first)
+    add(S('A', [('coll', 1, 'kids', 'iter'), ('setw', 1, 1001)]), S('B', [('movekid', 1, 2)]))
+    add(S('A', [('coll', 1, 'kids', 'len'), ('coll', 1, 'kids', 'iter'), ('setw', 1, 1001)]), S('B', [('movekid', 1, 2)]))
+    add(S('A', [('coll', 1, 'kids', 'load'), ('coll', 1, 'kids', 'sorted'), ('setw', 2, 1001)]), S('B', [('movekid', 2, None)]))
+    add(S('A', [('requery', 'prefetch_kids'), ('coll', 1, 'kids', 'copy'), ('setw', 1, 1001), ('setw', 2, 1002)]), S('B', [('movekid', 2, 2)]))
+    add(S('A', [('coll', 1, 'kids', 'list'), ('setw', 1, 1001)]), S('B', [('movekid', 1, 2), ('setw', 3, 2001)]))
+    add(S('A', [('coll', 1, 'kids', 'bool'), ('coll', 1, 'kids', 'iter'), ('setw', 2, 1001)]), S('B', [('movekid', 2, 2)]))
+    add(S('A', [('coll', 1, 'kids', 'in:1'), ('setw', 1, 1001)]), S('B', [('movekid', 1, 2)]))
+    add(S('A', [('kattr', 1, 'parent'), ('setw', 1, 1001)]), S('B', [('movekid', 1, 2)]))
+    add(S('A', [('kattr', 1, 'w'), ('movekid', 1, 2)]), S('B', [('setw', 1, 2001)]))
     return sets
 
 
@@ -122,11 +149,47 @@ def random_set(rng, allow_exempt):
     return sessions
 
 
+def random_rich_set(rng):
+    """Random programs over the wider op language: mid-session commit, in-session created rows, single-object
+    flush, kids (one-to-many) observed through several read kinds, kid updates and re-linking."""
+    sessions = []
+    for si in range(2):
+        const = itertools.count(1000 * (si + 1) + 1)
+        nops = rng.randint(3, 5)
+        ops = []
+        made = False
+        for j in range(nops):
+            k = rng.random()
+            r = 1 if rng.random() < 0.7 else 2
+            kid = rng.choice((1, 2, 3, 4))
+            if k < 0.14: ops.append(('read', r, rng.choice(PLAIN)))
+            elif k < 0.24: ops.append(('write', r, rng.choice(PLAIN), next(const)))
+            elif k < 0.30: ops.append(('inc', r, rng.choice(PLAIN)))
+            elif k < 0.36 and j: ops.append(('commit',))
+            elif k < 0.40 and si == 0 and not made: ops.append(('newrow', 3)); made = True
+            elif k < 0.46: ops.append(('lock', r, rng.choice(('get_for_update', 'query_for_update'))))
+            elif k < 0.60: ops.append(('coll', r, 'kids', rng.choice(('iter', 'len', 'load', 'sorted', 'list', 'copy', 'bool', 'in:%d' % kid))))
+            elif k < 0.68: ops.append(('kattr', kid, rng.choice(('parent', 'w'))))
+            elif k < 0.80: ops.append(('setw', kid, next(const)))
+            elif k < 0.88: ops.append(('movekid', kid, rng.choice((1, 2, None))))
+            elif k < 0.92: ops.append(('delkid', kid))
+            elif k < 0.96 and ops and ops[-1][0] in ('setw', 'movekid', 'delkid'): ops.append(('objflush', 'K', ops[-1][1]))
+            elif ops and ops[-1][0] == 'write': ops.append(('objflush', 'R', ops[-1][1]))
+            else: ops.append(('requery', rng.choice(('prefetch_kids', 'kids_all'))))
+        sessions.append(S('AB'[si], ops))
+    return sessions
+
+
 def writes_of(sess, upto=None):
-    """{(r, a)} the session's program overwrites."""
+    """{(table, id, attr)} the session's program overwrites."""
     out = set()
     for op in sess['ops'][:upto]:
-        if op[0] in ('write', 'inc', 'copy'): out.add((op[1], op[2]))
+        if op[0] in ('write', 'inc', 'copy'): out.add(('R', op[1], op[2]))
+        elif op[0] == 'movekid': out.add(('K', op[1], 'parent'))
+        elif op[0] == 'setw': out.add(('K', op[1], 'w'))
+        elif op[0] == 'newkid': out.add(('K', op[1], 'parent')); out.add(('K', op[1], 'w'))
+        elif op[0] == 'newrow':
+            for a in ('x', 'y', 'z', 'n', 'f', 'v'): out.add(('R', op[1], a))
     return out
 
 
@@ -155,8 +218,8 @@ class Judge(object):
         wit0 = dict(desc, sessions=sessions, choices=''.join(res.sched.choices))
         if res.status != 'ok' or res.final is None:
             ctx.count('schedule.' + res.status)
-            if res.status == 'deadlock': ctx.violation(dict(wit0, detail=res.sched.status_detail), 'deadlock')
-            else: ctx.inconclusive_if(True, 'watchdog in schedule %r' % (desc,))
+            # neither a deadlock (all workers blocked) nor a watchdog is a verdict about this property
+            ctx.inconclusive_if(True, '%s in schedule %r: %r' % (res.status, desc, res.sched.status_detail))
             return
         outcomes = {}
         for n in names:
@@ -172,13 +235,15 @@ class Judge(object):
             else:
                 ctx.inconclusive_if(True, 'harness: session %s ended with %r %r' % (n, r.outcome, r.exc)); return
         wit0['outcomes'] = outcomes
-        committed = [s for s in sessions if outcomes[s['name']] == 'committed']
+        # a session with mid-session commit() consists of several units; the units whose commit went through count
+        units = [sp.committed_units(s, res.runs[s['name']]) for s in sessions]
+        wit0['committed_units'] = [[u['name'] for u in us] for us in units]
         exempt = any(sp.touches_exempt(s) for s in sessions)
         cross = any(sp.cross_object_flow(s) and s['opts'].get('optimistic') is not False and not s['opts'].get('immediate')
                     for s in sessions)
 
         # ---- oracle 1: serial equivalence --------------------------------------------------------------
-        serial = sp.serial_results(committed)
+        serial = sp.serial_results_units(units)
         match = [order for order, st in serial.items() if st == res.final]
         if cross and not exempt:
             # per-object checks do not promise serialisability when a value read from one object is written into
@@ -188,42 +253,69 @@ class Judge(object):
             ctx.count('serial.judged')
             if match: ctx.count('serial.equivalent')
             else:
-                ctx.violation(dict(wit0, final=res.final['R'], serial={''.join(o): st['R'] for o, st in serial.items()}),
+                ctx.violation(dict(wit0, final=res.final, serial={'>'.join(o): st for o, st in list(serial.items())[:6]}),
                               'final-state-not-serial-equivalent')
         else:
             ctx.count('serial.exempt_equivalent' if match else 'serial.exempt_not_equivalent')
         if len([o for o in outcomes.values() if o != 'committed']): ctx.count('schedules.with_failed_session')
 
         # ---- oracle 2: history check ----------------------------------------------------------------------
-        for s in sessions:
+        all_committed_ops = [op for us in units for u in us for op in u['ops']]
+        for s, us in zip(sessions, units):
             n = s['name']; r = res.runs[n]
+            last_commit = r.commits_done[-1] if r.commits_done else -1
             if outcomes[n] != 'committed':
-                for (row, a, k) in const_writes(s):
-                    ctx.count('history.failed_session_writes_checked')
-                    if res.final['R'].get(row, {}).get(a) == k:
-                        ctx.violation(dict(wit0, session=n, write=[row, a, k], final=res.final['R']), 'failed-session-write-in-final-state')
-                continue
+                # nothing of the part that was not committed may be in the final state
+                lost = s['ops'][last_commit + 1:]
+                for op in lost:
+                    if op[0] == 'write':
+                        ctx.count('history.failed_session_writes_checked')
+                        if res.final['R'].get(op[1], {}).get(op[2]) == op[3]:
+                            ctx.violation(dict(wit0, session=n, write=list(op), final=res.final['R']), 'failed-session-write-in-final-state')
+                    elif op[0] == 'setw':
+                        ctx.count('history.failed_session_writes_checked')
+                        if res.final['K'].get(op[1], (None, None))[1] == op[2]:
+                            ctx.violation(dict(wit0, session=n, write=list(op), final=res.final['K']), 'failed-session-write-in-final-state')
+                    elif op[0] in ('delkid', 'delete'):
+                        ctx.count('history.failed_session_deletes_checked')
+                        gone = op[1] not in res.final['K' if op[0] == 'delkid' else 'R']
+                        if gone and op not in all_committed_ops:
+                            ctx.violation(dict(wit0, session=n, delete=list(op), final=res.final), 'failed-session-delete-in-final-state')
+                    elif op[0] in ('newrow', 'newkid'):
+                        ctx.count('history.failed_session_writes_checked')
+                        if op[1] in res.final['R' if op[0] == 'newrow' else 'K'] and op not in all_committed_ops:
+                            ctx.violation(dict(wit0, session=n, create=list(op), final=res.final), 'failed-session-insert-in-final-state')
             if s['opts'].get('optimistic') is False: continue
-            mine = [w for w in res.writes if w['tag'] == n and w['verb'] == 'UPDATE']
-            for w in mine:
+            overwritten = writes_of(s)
+            for w in res.writes:
+                if w['tag'] != n or w['verb'] != 'UPDATE': continue
+                step = w['step']
+                applied = outcomes[n] == 'committed' or (step != 'exit' and step is not None and step <= last_commit)
+                if not applied: continue
                 pu = sp.parse_update(w['sql'], w['args'])
-                if pu is None or pu[0] != 'R': ctx.count('history.unparsed_update'); continue
+                if pu is None or pu[0] not in ('R', 'K'): ctx.count('history.unparsed_update'); continue
                 table, set_cols, row, where_cols = pu
-                if row in r.locked: ctx.count('history.skipped_locked_row'); continue
+                if table == 'R' and row in w['locked']: ctx.count('history.skipped_locked_row'); continue
                 before = w['before']
                 if 'error' in before: ctx.count('history.no_snapshot'); continue
-                step = w['step']
-                overwritten = writes_of(s)
-                for st, key, val in r.obs:
-                    if key[0] != 'R' or len(key) != 3 or key[1] != row or val[0] != 'val': continue
+                for ob in r.obs:
+                    st, key, val = ob[:3]
+                    if key[0] != table or len(key) != 3 or key[1] != row or val[0] != 'val': continue
                     a = key[2]
-                    if a not in sp.R_ATTRS or a in sp.EXEMPT_ATTRS or (row, a) in overwritten: continue
+                    if table == 'R' and (a not in sp.R_ATTRS or a in sp.EXEMPT_ATTRS): continue
+                    if (table, row, a) in overwritten: continue
                     if step != 'exit' and not (st < step): continue
-                    ctx.count('history.read_checked')
-                    now = before['R'].get(row, {}).get(a)
+                    ctx.count('history.read_checked'); ctx.count('history.read_checked.' + table)
+                    if len(ob) > 3: ctx.count('history.read_checked.through_collection')
+                    if table == 'R': now = before['R'].get(row, {}).get(a)
+                    else:
+                        kv = before['K'].get(row)
+                        now = None if kv is None else kv[0 if a == 'parent' else 1]
+                        if kv is None: now = 'row deleted'
                     if now != val[1]:
-                        ctx.violation(dict(wit0, session=n, row=row, attr=a, read=val[1], at_update=now, update=w['sql'],
-                                           args=w['args'], where=where_cols), 'update-applied-over-changed-read')
+                        ctx.violation(dict(wit0, session=n, table=table, row=row, attr=a, read=val[1], at_update=now, update=w['sql'],
+                                           args=w['args'], where=where_cols, via='collection' if len(ob) > 3 else 'attribute'),
+                                      'update-applied-over-changed-read')
                     elif a not in where_cols: ctx.count('history.read_not_in_where')
 
 
@@ -236,7 +328,7 @@ def explore(ctx, model, sp, judge, sessions, kind, key, stmt_samples, max_enum=2
     if total <= max_enum:
         seqs = list(sched.interleavings(counts)); ctx.count('sets.enumerated_exhaustively')
     else:
-        seqs = sched.sample_interleavings(counts, min(max_enum, 300), rng); ctx.count('sets.sampled')
+        seqs = sched.sample_interleavings(counts, min(max_enum, 150), rng); ctx.count('sets.sampled')
     has_write = any(o[0] in sp.WRITE_OPS for s in sessions for o in s['ops'])
     progfp = [[s['name'], s['ops'], sorted(s['opts'].items())] for s in sessions]
     for seq in seqs:
@@ -279,10 +371,10 @@ def run(ctx):
     try:
         hw = handwritten()
         if ctx.tier == 'quick':
-            hw_sel = hw; nrand_plain, nrand_exempt, stmt = 7, 3, 5
+            hw_sel = hw; nrand_plain, nrand_exempt, nrand_rich, stmt = 5, 2, 4, 3
         else:
             hw_sel = hw if ctx.shard == 0 else [hw[i] for i in range(len(hw)) if i % ctx.nshards == ctx.shard % len(hw)]
-            nrand_plain, nrand_exempt, stmt = 14, 5, 8
+            nrand_plain, nrand_exempt, nrand_rich, stmt = 11, 4, 8, 6
         for i, sessions in enumerate(hw_sel):
             explore(ctx, model, sp, judge, sessions, 'hand', ('hand', hw.index(sessions), ctx.shard), stmt)
             ctx.count('program_sets')
@@ -290,6 +382,10 @@ def run(ctx):
         for i in range(nrand_plain + nrand_exempt):
             sessions = random_set(rng, allow_exempt=(i >= nrand_plain))
             explore(ctx, model, sp, judge, sessions, 'random', ('rand', ctx.tier, ctx.shard, i), stmt)
+            ctx.count('program_sets')
+        for i in range(nrand_rich):
+            sessions = random_rich_set(rng)
+            explore(ctx, model, sp, judge, sessions, 'rich', ('rich', ctx.tier, ctx.shard, i), stmt, max_enum=400)
             ctx.count('program_sets')
     finally:
         model.close()
